@@ -153,7 +153,7 @@ def _check_idx(zone_idx: int | str) -> str:
     if isinstance(zone_idx, str):
         zone_idx = FA if zone_idx == "HW" else zone_idx
     result: int = zone_idx if isinstance(zone_idx, int) else int(zone_idx, 16)
-    if 0 > result > 15 and result != 0xFA:
+    if not 0 <= result <= 15 and result not in (0xF9, 0xFA, 0xFC):  # a zone, or a domain
         raise exc.CommandInvalid(f"Invalid value for zone_idx: {result}")
     return f"{result:02X}"
 
@@ -597,6 +597,8 @@ class Command(Frame):
         """Constructor to get a log entry from a system (c.f. parser_0418)."""
 
         log_idx = log_idx if isinstance(log_idx, int) else int(log_idx, 16)
+        if not 0 <= log_idx <= 0x3F:  # the log has 64 entries
+            raise exc.CommandInvalid(f"Invalid value for log_idx: {log_idx}")
         return cls.from_attrs(RQ, ctl_id, Code._0418, f"{log_idx:06X}")
 
     @classmethod  # constructor for I|0418 (used for testing only)
